@@ -239,6 +239,19 @@ def compile_spec(spec, builder_cls, v, **kw):
     return b, data, None, None
 
 
+def outputs_present(spec, d, v):
+    """Every output unit the function created is in the definition (a graph
+    that silently loses its output is not the definition of that graph)."""
+    from collections import Counter
+    want = Counter(s['cls'] for s in spec['sinks'])
+    have = Counter(u['name'] for u in d['units'])
+    for cls, n in want.items():
+        if have[cls] < n:
+            v.fail('output_unit_missing',
+                   f'{n} {cls} created by the function, {have[cls]} in '
+                   f'the definition')
+
+
 def run_mc(spec, v):
     b, data, exc, where = compile_spec(spec, mcgen.Builder, v,
                                        log_creation=True)
@@ -250,6 +263,7 @@ def run_mc(spec, v):
     nontrivial = False
     if d is not None:
         units = d['units']
+        outputs_present(spec, d, v)
         if any(bi > 0 for u in units for a, bi in u['inputs'] if a >= 0):
             labels.append('channel_gt0_consumed')
             nontrivial = True
@@ -273,6 +287,8 @@ def run_c01(spec, v):
         v.fail(f'compile_raised:{type(exc).__name__}@{where}', repr(exc))
         return {'nontrivial': False, 'labels': ['compile_raised']}
     d = check_bytes(data, v, b.synthdef)
+    if d is not None:
+        outputs_present(spec, d, v)
     nt = d is not None and any(
         u['name'] in ('Sum3', 'Sum4', 'MulAdd') for u in d['units'])
     return {'nontrivial': nt, 'labels': []}
